@@ -2126,5 +2126,6 @@ def install(it):
     N['asyncio.IncompleteReadError'] = BUILTIN_CLASSES['IncompleteReadError']
     N['asyncio.InvalidStateError'] = BUILTIN_CLASSES['InvalidStateError']
     N['asyncio.QueueEmpty'] = BUILTIN_CLASSES['QueueEmpty']
+    N['asyncio.QueueFull'] = BUILTIN_CLASSES['QueueFull']
     N['asyncio.exceptions.CancelledError'] = BUILTIN_CLASSES['CancelledError']
     N['builtins.int.from_bytes'] = N['int.from_bytes']
